@@ -91,6 +91,7 @@ impl ValidationContext {
         self.validate_nodes_diverts(story.root(), "")?;
         self.validate_nodes_function_calls(story.root())?;
         self.validate_no_choice_in_conditional(story.root())?;
+        self.validate_weave_length(story.root())?;
 
         // Initial values can name divert targets and call functions too
         for global in story.globals() {
@@ -120,6 +121,7 @@ impl ValidationContext {
             self.validate_nodes_diverts(&flow.nodes, &flow.name)?;
             self.validate_nodes_function_calls(&flow.nodes)?;
             self.validate_no_choice_in_conditional(&flow.nodes)?;
+            self.validate_weave_length(&flow.nodes)?;
             self.validate_nodes_variable_divert_targets(
                 &flow.nodes,
                 &flow_params,
@@ -151,6 +153,7 @@ impl ValidationContext {
                 let qualified = format!("{}.{}", flow.name, stitch.name);
                 self.validate_nodes_diverts(&stitch.nodes, &qualified)?;
                 self.validate_nodes_function_calls(&stitch.nodes)?;
+                self.validate_weave_length(&stitch.nodes)?;
                 self.validate_nodes_variable_divert_targets(
                     &stitch.nodes,
                     &stitch_params,
